@@ -603,6 +603,105 @@ theorem newton_postcondition (P1 S r : V3 K) (sj sag eps : K)
   · simp only [Generated.C19.newtonScale]
     exact le_max_left _ _
 
+/-! ## session 3: closed forms the Newton iteration must agree with (planes: convergence PROVED; conics: exact root) -/
+
+/-- along any ray the conic's implicit equation is the quadratic `A s² + 2 B s + C` (so a ray meets a conic in at most two points) -/
+theorem conic_ray_quadratic (c k s : K) (P S : V3 K) :
+    conicImplicit c k (V3.add P (V3.smul s S)) = conicA c k S * (s * s) + 2 * conicB c k P S * s + conicC c k P := by
+  simp only [conicImplicit, conicA, conicB, conicC, V3.add, V3.smul]
+  ring
+
+/-- the closed-form intersection `P + s S`, `s = C / (√(B² − AC) − B)`, lies on the conic `cρ² − 2z + (1+κ)c z² = 0` — every
+curvature (the plane `c = 0` included), conic constant, ray origin and direction for which the discriminant is non-negative -/
+theorem conic_closed_form_hit (sqrt : K → K) (hs : ∀ x, 0 ≤ x → sqrt x * sqrt x = x)
+    (c k : K) (P S : V3 K)
+    (hD : 0 ≤ conicB c k P S * conicB c k P S - conicA c k S * conicC c k P)
+    (hden : sqrt (conicB c k P S * conicB c k P S - conicA c k S * conicC c k P) - conicB c k P S ≠ 0) :
+    conicImplicit c k (conicHit sqrt c k P S) = 0 := by
+  rw [conicHit, conic_ray_quadratic]
+  simp only [conicHitS]
+  have hσ := hs _ hD
+  generalize sqrt (conicB c k P S * conicB c k P S - conicA c k S * conicC c k P) = σ at *
+  generalize conicA c k S = A at *
+  generalize conicB c k P S = B at *
+  generalize conicC c k P = C at *
+  field_simp
+  linear_combination C * hσ
+
+/-- a point of the implicit conic on the vertex branch (`1 − (1+κ)c z ≥ 0`) IS a point of the sag function the code evaluates
+(translated `conic_sag`): `z = cρ²/(1+φ)`.  With `conic_on_surface` (the converse): on that branch `G = 0 ⟺ z = sag(x, y)`, so the
+closed-form hit and the point Newton converges to (`F = z − sag = 0`) are the same point -/
+theorem conic_implicit_is_sag (sqrt : K → K) (hs : ∀ x, 0 ≤ x → sqrt x * sqrt x = x) (hs0 : ∀ x, 0 ≤ sqrt x)
+    (c k : K) (P : V3 K) (hG : conicImplicit c k P = 0) (hbr : 0 ≤ 1 - (1 + k) * c * P.z) :
+    P.z = Generated.C19.conicSag sqrt c k (P.x * P.x + P.y * P.y) := by
+  rw [(gen_conic sqrt c k 0 (P.x * P.x + P.y * P.y) 0).1]
+  have hu : phiSq c k (P.x * P.x + P.y * P.y) = (1 - (1 + k) * c * P.z) * (1 - (1 + k) * c * P.z) := by
+    simp only [phiSq, conicImplicit] at *
+    linear_combination (-(1 + k) * c) * hG
+  have hnn : 0 ≤ phiSq c k (P.x * P.x + P.y * P.y) := by rw [hu]; exact mul_self_nonneg _
+  have hφ : sqrt (phiSq c k (P.x * P.x + P.y * P.y)) = 1 - (1 + k) * c * P.z := by
+    have h1 := hs _ hnn
+    have h2 := hs0 (phiSq c k (P.x * P.x + P.y * P.y))
+    generalize sqrt (phiSq c k (P.x * P.x + P.y * P.y)) = φ at h1 h2 ⊢
+    rw [hu] at h1
+    have : (φ - (1 - (1 + k) * c * P.z)) * (φ + (1 - (1 + k) * c * P.z)) = 0 := by linear_combination h1
+    rcases mul_eq_zero.mp this with h | h
+    · linarith
+    · have : φ = 0 ∧ 1 - (1 + k) * c * P.z = 0 := ⟨by linarith, by linarith⟩
+      linarith [this.1, this.2]
+  rw [hφ]
+  have hd : 1 + (1 - (1 + k) * c * P.z) ≠ 0 := ne_of_gt (by linarith)
+  rw [conicSag, eq_div_iff hd]
+  simp only [conicImplicit] at hG
+  linear_combination -hG
+
+/-- PLANES — convergence proved, not trusted: for every ray that is not parallel to the plane, every `eps > 0` and every iteration
+budget ≥ 1, the Newton loop of `intersect` (model, with the code's stopping rule) stops in its FIRST pass and returns the exact
+intersection with `z = 0` and the normal `(−0, −0, 1)` -/
+theorem plane_intersect_converges (sqrt : K → K) (P0 S : V3 K) (eps : K) (fuel : Nat) (hm : S.z ≠ 0) (he : 0 < eps) :
+    ∃ P r, intersect sqrt ltK Shape.plane P0 S eps (fuel + 1) = some (P, r) ∧
+      P.z = 0 ∧ P.x = P0.x + (-P0.z / S.z) * S.x ∧ P.y = P0.y + (-P0.z / S.z) * S.y ∧ r = ⟨-0, -0, 1⟩ := by
+  have hz : (Model.C19.toVertexPlane P0 S).z = 0 := by
+    simp only [Model.C19.toVertexPlane, V3.add, V3.smul]; field_simp; ring
+  simp only [intersect, newton, newtonStep, sagNormal, sagGrad, normalOfGrad]
+  have hd : (0 : K) - ((V3.add (Model.C19.toVertexPlane P0 S) (V3.smul 0 S)).z - 0) / V3.dot S ⟨-0, -0, 1⟩ - 0 = 0 := by
+    simp only [V3.add, V3.smul, V3.dot, hz]; simp
+  simp only [hd]
+  have hsc : (1 : K) ≤ newtonScale ltK (V3.add (Model.C19.toVertexPlane P0 S) (V3.smul 0 S)) := by
+    simp only [newtonScale, ltK, decide_eq_true_eq]
+    split_ifs <;> first | exact le_refl _ | (rename_i h; exact le_of_lt ‹_›) | linarith
+  have : ltK (if ltK (0 : K) 0 = true then -(0 : K) else 0)
+      (eps * newtonScale ltK (V3.add (Model.C19.toVertexPlane P0 S) (V3.smul 0 S))) = true := by
+    simp only [ltK, lt_self_iff_false, decide_false, Bool.false_eq_true, if_false, decide_eq_true_eq]
+    exact mul_pos he (by linarith)
+  rw [if_pos this]
+  refine ⟨_, _, rfl, ?_, ?_, ?_, rfl⟩
+  · simp only [V3.add, V3.smul, hz]; simp
+  · simp only [V3.add, V3.smul, Model.C19.toVertexPlane]; ring
+  · simp only [V3.add, V3.smul, Model.C19.toVertexPlane]; ring
+
+/-- the same on the TRANSLATED Newton update: on a plane one update from ANY `s_j` lands on the exact root `s = 0` of the
+vertex-plane point, and started at `s = 0` (as `intersect` does) the step length is `0 < eps · scale` -/
+theorem plane_newton_one_step (P1 S : V3 K) (sj : K) (hz : P1.z = 0) (hm : S.z ≠ 0) :
+    Generated.C19.newtonNext abs P1 S sj 0 ⟨-0, -0, 1⟩ = 0 ∧ Generated.C19.newtonDelta abs P1 S 0 0 ⟨-0, -0, 1⟩ = 0 := by
+  constructor
+  · simp only [Generated.C19.newtonNext, V3.add, V3.smul, V3.dot, hz]
+    have : (0 + sj * S.z - 0) / (S.x * -0 + S.y * -0 + S.z * 1) = sj := by
+      rw [show S.x * -0 + S.y * -0 + S.z * 1 = S.z by ring, show (0 : K) + sj * S.z - 0 = sj * S.z by ring]
+      exact mul_div_cancel_right₀ sj hm
+    first
+      | (rw [this]; ring)
+      | (field_simp; ring)
+  · simp only [Generated.C19.newtonDelta, V3.add, V3.smul, V3.dot, hz]
+    simp
+
+/-- non-vacuity of `conic_closed_form_hit` / `conic_implicit_is_sag`: sphere `c = 1/5`, axial ray from `(3, 0, 0)`: `A = 1/5`,
+`B = −1`, `C = 9/5`, discriminant `16/25 = (4/5)²`, hit `z = 1 = sag(3)`, on the vertex branch -/
+example : let P : V3 ℚ := ⟨3, 0, 0⟩; let S : V3 ℚ := ⟨0, 0, 1⟩
+    conicB (1 / 5) 0 P S * conicB (1 / 5) 0 P S - conicA (1 / 5) 0 S * conicC (1 / 5) 0 P = 4 / 5 * (4 / 5) ∧
+    conicImplicit (1 / 5 : ℚ) 0 ⟨3, 0, 1⟩ = 0 ∧ (0 : ℚ) ≤ 1 - (1 + 0) * (1 / 5) * 1 := by
+  simp only [conicA, conicB, conicC, conicImplicit]; norm_num
+
 /-! ## non-vacuity: the hypotheses are met by the real square root and by concrete rays -/
 
 example : (∀ x : ℝ, 0 ≤ x → Real.sqrt x * Real.sqrt x = x) ∧ (∀ x : ℝ, 0 ≤ Real.sqrt x) :=
